@@ -178,3 +178,25 @@ func convertToSyslSafe(name string) string {
 	}
 	return syslSafe.String()
 }
+
+// syslKeywords are the words the Sysl lexer reads as a keyword token where a Name is expected (in any case,
+// like the lexer), httpVerbs the ones it reads as HTTP_VERBS (upper case only).
+var syslKeywords = []string{"alt", "as", "else", "float32", "float64", "for", "foreach", "if", "loop", "oneof",
+	"return", "sequenceof", "setof", "until", "while"}
+var httpVerbs = []string{"GET", "POST", "DELETE", "PUT", "PATCH", "OPTIONS", "HEAD", "TRACE"}
+
+// isSyslKeyword reports whether the lexer would not read name as a Name although it is spelled like one.
+func isSyslKeyword(name string) bool {
+	lower := strings.ToLower(name)
+	for _, k := range syslKeywords {
+		if lower == k {
+			return true
+		}
+	}
+	for _, v := range httpVerbs {
+		if name == v {
+			return true
+		}
+	}
+	return false
+}
